@@ -82,6 +82,17 @@ CHECKS.update({
          'probe is recorded; per block: each repetition exactly one interval after the last event sent, never overdue, data of the most recent event, next number, nothing after stop.',
          TRUSTED + '; intervals are multiples of 0.25 s; a repetition and an arrival at the same virtual instant may come in either order (but the old event must not follow the new one)', '6 C18'),
 })
+CHECKS.update({
+ 'C19': ('other', 'reference evaluation against TLA+ definitions (Durations.tla, laws model-checked by TLC in MC_Durations) of cases recorded from the real convert/time_period/timestr/timestr_approx; strings rendered and split by the harness',
+         'Durations.tla defines validity (at least one part, fraction only in the smallest unit present, years/months zero), the unit arithmetic with exact '
+         'second/millisecond pairs, the d/h/m/s decomposition and the parts shown by timestr, rounding to prec decimals, the documented rounding step and '
+         'format class of timestr_approx; TLC checks laws of these definitions on grids (decomposition is the inverse of the arithmetic, rounding idempotent and '
+         'within half a step, step monotone) and then evaluates every recorded case: convert(render(x)) raises iff ~Valid(x) else equals Value(x) for the '
+         'traditional and the ISO rendering (unit case, blanks, point/comma, optional final s), negative numbers -> 0, None -> None, timestr components / shown '
+         'parts / decimals and convert(timestr(n)) = n, |timestr_approx(n) - n| < step, documented-malformed strings raise.',
+         'level other: the lexical side (regular expressions of timeunits.py) is not modelled in TLA+; strings come from the harness renderer and output strings are '
+         'split by a harness regex; rounding ties are excluded; floats up to 1e7 s with <= 6 decimals; TLC and the JSON reader are trusted', '6 C19'),
+})
 NA = {}
 ALL = [f'C{n:02d}' for n in range(1, 21)]
 
